@@ -2,6 +2,7 @@ import TallyVerif.Driver.Util
 import TallyVerif.Driver.Classify
 import TallyVerif.Driver.Analyze
 import TallyVerif.Driver.Rules
+import TallyVerif.Driver.Expr
 /-! `tvdrv`: one JSON object per line in, one canonical JSON object per line out. -/
 open Lean TallyVerif.Driver
 
@@ -12,6 +13,7 @@ def dispatch (j : Json) : Json :=
   | "match" => handleMatch j
   | "legacy" => handleLegacy j
   | "transforms" => handleTransforms j
+  | "eval" => handleEval j
   | "ping" => obj [("pong", .bool true)]
   | op => obj [("err", .str s!"unknown op {op}")]
 
